@@ -588,6 +588,7 @@ package parse
 //@   assumed
 //@   requires t != nil && t.lex != nil
 //@   requires t.text == t.lex.input
+//@   requires t.peekCount == 0
 //@   preserves t.text
 //@   modifies *
 //@   preserves t.lex
